@@ -18,6 +18,7 @@
 #include "nmtools/array/view/zeros_like.hpp"
 #include "nmtools/array/view/ones_like.hpp"
 #include "nmtools/array/view/arange.hpp"
+#include "nmtools/array/view/linspace.hpp"
 #include "nmtools/array/view/pad.hpp"
 #include "nmtools/array/view/resize.hpp"
 #include "nmtools/array/view/expand.hpp"
@@ -106,6 +107,33 @@ void ob_c04j_arange()
     { VIEW(v, view::arange(5, 1, -1)); EXPECT_VIEW1("C04.view.arange.shape", "C04.view.arange.negative_step_default_dtype", v, 4, 5 - (long)i, 6); }
     { VIEW(v, view::arange(1, 7, 2)); EXPECT_VIEW1("C04.view.arange.shape", "C04.view.arange.default_dtype", v, 3, 1 + 2*(long)i, 7); }
 }
+// ---- linspace (numpy.linspace: num samples, y[i] = start + i*step with step = (stop-start)/(num-1 or num), y[0] = start, and with
+// endpoint y[-1] = stop), symbolic floating-point bounds: the results are compared bit for bit, in the bounds' own type
+template <class T, size_t NUM, class V>
+__attribute__((always_inline)) inline void linspace_elements(const V& v, T start, T stop, bool endpoint, long tag, long form)
+{
+    auto same = [](T x, T y){ return __builtin_memcmp(&x, &y, sizeof(T)) == 0; };
+    static_assert(std::is_same_v<std::remove_cv_t<std::remove_reference_t<decltype(v(0))>>, T>, "linspace keeps the floating-point type of its bounds");
+    OBLIGE("C04.view.linspace.first_element_is_start", same(v(0), start), tag, form);
+    if (endpoint) {
+        if constexpr (NUM > 1) OBLIGE("C04.view.linspace.last_element_is_stop", same(v(NUM-1), stop), tag, form);
+        for_<NUM>([&](auto I){ if constexpr (I.value > 0 && I.value + 1 < NUM) OBLIGE("C04.view.linspace.interior_element", same(v(I.value), start + (T)I.value * ((stop - start) / (T)(NUM - 1))), tag, form, I.value); });
+    } else
+        for_<NUM>([&](auto I){ if constexpr (I.value > 0) OBLIGE("C04.view.linspace.without_endpoint", same(v(I.value), start + (T)I.value * ((stop - start) / (T)NUM)), tag, form, I.value); });
+}
+template <class T, size_t NUM>
+void ob_c04j_linspace(T start, T stop)
+{
+    constexpr long tag = (long)sizeof(T) * 100 + NUM;
+    // num given at run time (the shape is then a run-time-length list: only the elements are stated) ...
+    { auto v = view::linspace(start, stop, NUM); linspace_elements<T,NUM>(v, start, stop, true, tag, 0); }
+    { auto v = view::linspace(start, stop, NUM, nm::False); linspace_elements<T,NUM>(v, start, stop, false, tag, 1); }
+    // ... and as a compile-time constant
+    { auto v = view::linspace(start, stop, meta::ct_v<NUM>); OBLIGE("C04.view.linspace.shape", cv::shape_is<NUM>(v), tag, 2); linspace_elements<T,NUM>(v, start, stop, true, tag, 2); }
+    { auto v = view::linspace(start, stop, meta::ct_v<NUM>, nm::False); OBLIGE("C04.view.linspace.shape", cv::shape_is<NUM>(v), tag, 3); linspace_elements<T,NUM>(v, start, stop, false, tag, 3); }
+}
+template void ob_c04j_linspace<float,1>(float, float); template void ob_c04j_linspace<float,2>(float, float); template void ob_c04j_linspace<float,5>(float, float);
+template void ob_c04j_linspace<double,1>(double, double); template void ob_c04j_linspace<double,4>(double, double); template void ob_c04j_linspace<double,11>(double, double);
 // ---- pad (pad_width: all leading widths, then all trailing widths), resize (nearest-neighbour: src = floor(src_extent * i / dst_extent)), expand
 void ob_c04j_pad(const ARR<2,2>& a, long val)
 { PIN(a, 2,2);
